@@ -47,6 +47,10 @@ PROPS = {
              {"checks": 8000, "timeout": 300},
              {"checks": 30000, "shards": 16, "timeout": 1800},
              assumptions=COMMON_ASSUME),
+    "C18": P("TestC18", "exploration",
+             {"checks": 8000, "timeout": 300},
+             {"checks": 30000, "shards": 16, "timeout": 1800},
+             assumptions=COMMON_ASSUME),
 }
 
 TRUST = "Trusted base: Go runtime, net/http, compress/*, google.golang.org/protobuf, rapid, and the harness's own reference wire layer as the reading of the protocol specs. Generated search: absence of violations is evidence over the explored cases only."
@@ -95,6 +99,11 @@ META = {
     "C13": {
         "technique": "property-based testing (rapid): generated pass-through and unknown-endpoint requests; field-by-field snapshot comparison of the request given to ServeHTTP with what the downstream handler observed, and of the handler's response with what the client's writer received",
         "level_text": 'Generated exploration of requests that need no conversion and of unmatched paths, with control headers of every protocol, query strings, arbitrary bodies, declared/undeclared lengths and HTTP versions; identity of request and response across the transcoder is the oracle.',
+        "level_note": TRUST,
+    },
+    "C18": {
+        "technique": 'property-based testing (rapid): generated requests of every rejection class and exit path; instrumented handlers (invocation counters, captured context) and gated request body / response writer (calls after return) as oracle',
+        "level_text": 'Generated exploration of rejection classes (before and after method resolution) and exit paths (success, pass-through, unknown handler, set-up error, mid-stream error, handler panic); dispatch counts, context cancellation and absence of late I/O are asserted on every case.',
         "level_note": TRUST,
     },
 }
